@@ -209,7 +209,10 @@ def distinct_cases():
     lists with a default arm; one uncovered and one duplicate list each)"""
     cases = []
     decls = ("DW_E :: enum { A: i32, B };\nDW_Err :: enum { Bad: u8, Worse };\n"
-             "DWE :: distinct DW_E;\nDWO :: distinct ?i32;\nDWU :: distinct DW_Err!i32;\n")
+             "DWE :: distinct DW_E;\nDWO :: distinct ?i32;\nDWU :: distinct DW_Err!i32;\n"
+             # error unions whose two sides look alike: structs with identical fields, distincts of one underlying type
+             "LA_E :: struct { line: i32, col: i32 };\nLA_P :: struct { line: i32, col: i32 };\n"
+             "LB_E :: distinct i32;\nLB_P :: distinct i32;\nLD_P :: distinct u8;\n")
     fams = [
         ("DWE", [("DWE.(DW_E.A.(5))", "A", [5]), ("DWE.(DW_E.B)", "B", [])],
          {"A": (".A", "pr(i64.(i32.(q)));"), "B": (".B", "")}),
@@ -217,6 +220,12 @@ def distinct_cases():
          {"some": ("i32", "pr(i64.(q));"), "nil": ("nil", "")}),
         ("DWU", [("DWU.(9)", "ok", [9]), ("DWU.(DW_Err.Worse)", "err", [])],
          {"ok": ("i32", "pr(i64.(q));"), "err": ("DW_Err", "")}),
+        ("LA_E!LA_P", [("LA_P.{ line = 8, col = 1 }", "ok", [8, 1]), ("LA_E.{ line = 3, col = 7 }", "err", [3, 7])],
+         {"ok": ("LA_P", "pr(i64.(q.line)); pr(i64.(q.col));"), "err": ("LA_E", "pr(i64.(q.line)); pr(i64.(q.col));")}),
+        ("LB_E!LB_P", [("LB_P.(9)", "ok", [9]), ("LB_E.(5)", "err", [5])],
+         {"ok": ("LB_P", "pr(i64.(i32.(q)));"), "err": ("LB_E", "pr(i64.(i32.(q)));")}),
+        ("DW_Err!LD_P", [("LD_P.(9)", "ok", [9]), ("DW_Err.Bad.(4)", "err", [])],
+         {"ok": ("LD_P", "pr(i64.(u8.(q)));"), "err": ("DW_Err", "")}),
     ]
     k = 0
     for name, values, arms in fams:
@@ -280,7 +289,7 @@ def discriminant_pattern_cases(quick):
 
 def explains(model, m):
     if model == "distinct-sum-type-switch":
-        return m.case.key.startswith("distinct ") and m.kind == "compiler-panic"
+        return m.case.key.startswith("distinct DW") and m.kind == "compiler-panic" and "entered unreachable code" in (m.detail or "")
     return False
 
 
